@@ -151,6 +151,8 @@ class ServerWorld:
 
             def destroy(self):
                 world.destroys[self._sim_serial] = world.destroys.get(self._sim_serial, 0) + 1
+                if world.cfg.get("destroy_cost_us"):
+                    world.clock.advance(world.cfg["destroy_cost_us"])      # releasing an instance takes (virtual) time
                 return super().destroy()
 
         def factory():
